@@ -97,8 +97,8 @@ func (p *Matcher) Match(pat, t *N, env *Env, k func(*Env) bool) bool {
 			if kind == "identifier" && t.Kind != "Ident" {
 				return false
 			}
-			// 'key: value' has an expression's type in go/ast but is not a Go expression (C02: "any single Go expression")
-			if kind == "expression" && (!IsExprKind(t.Kind) || t.Kind == "KeyValueExpr") {
+			// 'key: value' and the '...' of [...]T / ...T have an expression's type in go/ast but are not Go expressions (C02: "any single Go expression")
+			if kind == "expression" && (!IsExprKind(t.Kind) || t.Kind == "KeyValueExpr" || t.Kind == "Ellipsis") {
 				return false
 			}
 			if b, seen := env.Bind[name]; seen {
